@@ -1,14 +1,14 @@
 #!/bin/sh
-# validate_seeded.sh Cnn : for each /tmp/seedmut2/Cnn.out/N check that the patch applies to a clean
+# validate_seeded.sh Cnn : for each ${R:-/tmp/seedmut2}/Cnn.out/N check that the patch applies to a clean
 # worktree, builds, keeps the 339 tests green and changes the demo's behaviour. Writes
-# /tmp/seedmut2/Cnn.out/N/validation.txt
+# ${R:-/tmp/seedmut2}/Cnn.out/N/validation.txt
 ID=$1
-W=/tmp/seedmut2/$ID
+W=${R:-/tmp/seedmut2}/$ID
 cd $W || exit 1
 git checkout -q -- . 2>/dev/null
 export CARGO_NET_OFFLINE=true
 cargo build --offline -q 2>/dev/null
-for d in /tmp/seedmut2/$ID.out/[0-9]*; do
+for d in ${R:-/tmp/seedmut2}/$ID.out/[0-9]*; do
   [ -f $d/patch.diff ] || continue
   out=$d/validation.txt
   : > $out
